@@ -289,6 +289,9 @@ Definition pstep (s : pscan) (l : label) : pscan :=
       flag_if (p_fb_late p) 1 (flag_if (p_acc_late p) 2
         (setp s i (mkp (p_fb_late p) (p_acc_late p) (p_addr p) (p_closed p) true (p_rt_late p) (p_must_close p)
                        (p_gone p) (p_connect p) (p_wrote p) (p_cli p) (p_cli_bad p) (p_eof p))))
+  | RTLeaveUp i => let p := getp s i in
+      setp s i (mkp (p_fb_late p) (p_acc_late p) (p_addr p) (p_closed p) (p_inflight p) (ps_closing_seen s)
+                    (p_must_close p) (p_gone p) true (p_wrote p) (p_cli p) (p_cli_bad p) (p_eof p))
   | RTLeave i => let p := getp s i in
       setp s i (mkp (p_fb_late p) (p_acc_late p) (p_addr p) (p_closed p) (p_inflight p) (ps_closing_seen s)
                     (p_must_close p) (p_gone p) (p_connect p) (p_wrote p) (p_cli p) (p_cli_bad p) (p_eof p))
